@@ -6,7 +6,7 @@
    (Props/C07.v carries the per-batch and per-round statements of BatchProofs.v).
    Only statements here. *)
 From Coq Require Import List ZArith NArith Bool.
-From Jade Require Import Base System SystemMonitors SystemProofs SystemInv SystemTheorems.
+From Jade Require Import Base System SystemMonitors SystemProofs SystemInv SystemLaunch SystemTheorems.
 From Jade.Props Require Import SysExamples.
 Import ListNotations.
 Open Scope N_scope.
@@ -19,6 +19,12 @@ Print Assumptions c01_no_double_placement.
 Theorem c01_monitor : forall sc tr s, run sc tr = Some s -> c01_ok sc tr = true.
 Proof. exact c01_accepted. Qed.
 Print Assumptions c01_monitor.
+
+(* 'started at most once' is not a guard of the acceptor: it follows from the structure - a node's queue is
+   a duplicate-free part of its batch, batches are disjoint, a launch removes the job from the queue *)
+Theorem c01_started_at_most_once : forall sc tr s, run sc tr = Some s -> NoDup (launched_of tr).
+Proof. exact launched_nodup. Qed.
+Print Assumptions c01_started_at_most_once.
 
 (* the state behind it: a job that was handed out and is still 'not submitted' on disk can only exist
    while submitter.lock is present, and then only the process that created the lock may submit *)
